@@ -171,13 +171,12 @@ pub fn format_buf(args: Vec<Rc<Object>>) -> Result<Collector, String> {
                 continue;
             }
             // Now print the arguments based on the specifier
-            if idx_arg >= args.len() {
-                return Err(String::from("positional arguments exceeded the count"));
-            }
-
             // If index specifier is empty, use positional index 'idx_arg'
             // Otherwise, use the specified index into the arguments list
             if curr_spec_idx.is_empty() {
+                if idx_arg >= args.len() {
+                    return Err(String::from("positional arguments exceeded the count"));
+                }
                 // specifiers such as '{}', '{:10}', '{<5}', '{:0>5}' etc
                 format_obj(
                     &mut collector,
